@@ -17,11 +17,16 @@ def run(ctx):
     moneycheck.model(ctx)
     moneycheck.judge(ctx, moneycheck.rate_make_cases(ctx, rnd), 'rates')
     moneycheck.judge(ctx, moneycheck.algebra_cases(ctx, rnd), 'algebra')
+    # every ExchangeRate the repository's own test suite constructs, inverts, multiplies or divides
+    moneycheck.repo_suite(ctx, {'rate_make', 'rate_invert', 'rate_mul', 'rate_div'})
 
 
 def replay(ctx, rp):
     r = rp['replay']
-    if r.get('kind') == 'money-plain':
+    if r.get('kind') == 'money-suite':
+        print('    recorded event: ' + moneycheck.brief(r['event']))
+        moneycheck.rejudge(ctx, [dict(r['event'])])
+    elif r.get('kind') == 'money-plain':
         import os, tlc, json
         from adapters import money
         iso = os.path.join(tlc.scratch_root(), 'iso4217.json')
